@@ -46,6 +46,7 @@ def qm : Option Queuer → Nat
     | .queueDeps r => r.length + (c.deps q.t).length + 4
     | .waitDeps r => r.length + 2
     | .done => 1
+    | .waitTarget _ => 2
 
 def cm : Option T → Nat
   | none => 0
@@ -65,12 +66,16 @@ def muQ (qs : Nat → Option Queuer) (n : Nat) : Nat := sumTo (fun i => qm c (qs
 def muC (ch : Nat → Option T) (n : Nat) : Nat := sumTo (fun i => cm (ch i)) n
 def muW (ws : Nat → Option Worker) (n : Nat) : Nat := sumTo (fun i => wm (ws i)) n
 
+/-- what the first `WaitForBuiltTarget(t)` may still cost -/
+def muS (sw : T → Bool) : Nat := sumTo (fun t => if sw t then 0 else 8) c.n
+
 def b01 (b : Bool) : Nat := if b then 0 else 1
 theorem b01_or_le (a b : Bool) : b01 (a || b) ≤ b01 a := by cases a <;> cases b <;> decide
 
 /-- the termination measure -/
 def mu (s : St) : Nat :=
-  muA c s.st + muQ c s.qs s.nextQ + muC s.chan s.nextM + muW s.ws s.nextW + b01 s.initDone + b01 s.stopped + b01 s.ext
+  muA c s.st + muQ c s.qs s.nextQ + muC s.chan s.nextM + muW s.ws s.nextW + b01 s.initDone + b01 s.stopped + b01 s.ext +
+    muS c s.sw
 
 /-- the extra well-formedness the measure needs: everything lives inside `0 … n-1` -/
 structure Inv2 (s : St) : Prop where
@@ -146,6 +151,12 @@ theorem muW_upd (ws : Nat → Option Worker) (n i : Nat) (hi : i < n) (v : Optio
 theorem muW_push (ws : Nat → Option Worker) (n : Nat) (v : Option Worker) :
     muW (upd ws n v) (n + 1) = muW ws n + wm v := sumTo_push ws wm n v
 
+theorem muS_upd (sw : T → Bool) (t : T) (ht : t < c.n) (h : sw t = false) : muS c (upd sw t true) + 8 = muS c sw := by
+  have e := sumTo_upd sw (fun b => if b then 0 else 8) c.n t ht true
+  simp only [h] at e
+  unfold muS
+  simpa using e
+
 /-- the closing tactic for `Inv2` -/
 macro "inv2_close" hi:ident : tactic =>
   `(tactic| (constructor <;> first
@@ -206,6 +217,8 @@ theorem step_inv2 (hwf : WF c) {s s' : St} (hi : Inv2 c s) (h : Step c s s') : I
         have hqt := hi.qT i q hq
         split at h <;> (cases h; inv2_close hi)
       · cases h; apply taskDone_inv2; inv2_close hi
+      · have hqt := hi.qT i q hq
+        split at h <;> first | (cases h; inv2_close hi) | cases h
     · cases h
   | queuerAbort i =>
     simp only [fire] at h
@@ -238,6 +251,21 @@ theorem step_inv2 (hwf : WF c) {s s' : St} (hi : Inv2 c s) (h : Step c s s') : I
     · cases h
     · cases h; apply taskDone_inv2; inv2_close hi
   | stop => simp only [fire] at h; cases h; inv2_close hi
+  | subWait t =>
+    simp only [fire] at h
+    split at h
+    · rename_i hg
+      split at h
+      · cases h; inv2_close hi
+      · cases h
+        have h1 := qrt_inv2 c hi hwf t hg.1 true
+        have ht := hg.1
+        generalize qrt c s t true = s1 at h1
+        inv2_close h1
+    · cases h
+  | cycleCheck =>
+    simp only [fire] at h
+    split at h <;> first | (cases h; inv2_close hi) | cases h
 
 theorem reach_inv2 (hwf : WF c) {s : St} (h : Reach c s) : Inv2 c s := by
   induction h with
@@ -297,6 +325,8 @@ theorem qrt_qs_old {s : St} (hi : Inv c s) (t : T) (f : Bool) (i : Nat) (q : Que
 def Internal : Action → Prop
   | .activate _ _ => False
   | .stop => False
+  | .subWait _ => False      -- arrives from the parse phase
+  | .cycleCheck => False     -- closes the queues from outside the task counting, like `stop` (see `CanStepC`)
   | _ => True
 
 theorem step_mu {s s' : St} (hi : Inv c s) (h2 : Inv2 c s) (a : Action) (h : fire c s a = some s') :
@@ -388,6 +418,16 @@ theorem step_mu {s s' : St} (hi : Inv c s) (h2 : Inv2 c s) (a : Action) (h : fir
         simp only [mu] at ht ⊢
         simp only [taskDone] at ht ⊢
         omega
+      · rename_i d hph
+        split at h
+        · cases h
+          have e1 : qm c (some q) = 2 := by simp [qm, hph]
+          have e := muQ_upd c s.qs s.nextQ i hlt (some { q with ph := .done })
+          rw [hq] at e
+          have e2 : qm c (some { q with ph := QPh.done }) = 1 := rfl
+          simp only [mu]
+          omega
+        · cases h
     · cases h
   | queuerAbort i =>
     simp only [fire] at h
@@ -539,5 +579,42 @@ theorem step_mu {s s' : St} (hi : Inv c s) (h2 : Inv2 c s) (a : Action) (h : fir
       have e4 : b01 true ≤ b01 s.ext := by cases s.ext <;> decide
       simp only [mu]
       omega
+  | subWait t =>
+    simp only [fire] at h
+    split at h
+    · rename_i hg
+      have hS := muS_upd c s.sw t hg.1 hg.2.1
+      right
+      split at h
+      · cases h
+        simp only [mu]
+        omega
+      · cases h
+        have hle := qrt_mu_le c hi t hg.1 true
+        have hsw : (qrt c s t true).sw = s.sw := by
+          unfold qrt spawn; repeat' split
+          all_goals rfl
+        generalize qrt c s t true = s1 at hle hsw ⊢
+        have hQ := muQ_push c s1.qs s1.nextQ (some ⟨t, false, true, .waitTarget t⟩)
+        have e2 : qm c (some ⟨t, false, true, .waitTarget t⟩) = 2 := rfl
+        simp only [mu] at hle ⊢
+        rw [hQ, hsw]
+        rw [hsw] at hle
+        omega
+    · cases h
+  | cycleCheck =>
+    simp only [fire] at h
+    split at h
+    · rename_i hg
+      cases h
+      right
+      have hs : s.stopped = false := by
+        cases hst : s.stopped <;> simp [hst] at hg ⊢
+      have e0 : b01 s.stopped = 1 := by simp [b01, hs]
+      have e1 : b01 true = 0 := rfl
+      have e4 : b01 true ≤ b01 s.ext := by cases s.ext <;> decide
+      simp only [mu]
+      omega
+    · cases h
 
 end PlzVerif.Sched
